@@ -214,7 +214,7 @@ template <int N> static void t_roundtrip_string()
   vp_assert(t.size() == (size_t)N, "string length round-trips");
   for (int i = 0; i < N; i++) vp_assert(t[i] == s[i], "string characters round-trip (every byte value)");
   vp_assert(r.end(), "string consumed exactly");
-  vp_reach("roundtrip-string-end");
+  vp_reach("roundtrip-string-end"); vp_reach("end");
 }
 VP_ENTRY vp_main_roundtrip_str0() { t_roundtrip_string<0>(); }
 VP_ENTRY vp_main_roundtrip_str1() { t_roundtrip_string<1>(); }
@@ -249,3 +249,29 @@ VP_ENTRY vp_main_truncation()
   if (cut >= 4) vp_assert(a2 == a, "complete prefix still read correctly");
   vp_reach("truncation-end");
 }
+
+#ifdef VP_PATH
+// (path engine) strings across the small-string boundary and vectors of strings - every byte value
+VP_ENTRY vp_main_roundtrip_str15() { t_roundtrip_string<15>(); }
+VP_ENTRY vp_main_roundtrip_str16() { t_roundtrip_string<16>(); }
+VP_ENTRY vp_main_roundtrip_str33() { t_roundtrip_string<33>(); }
+VP_ENTRY vp_main_roundtrip_vecstr()
+{
+  vp_nothrow(true);
+  std::vector<std::string> v;
+  unsigned k = vp_pick(4);
+  size_t bytes = 8;
+  for (unsigned i = 0; i < k; i++) { unsigned len = vp_pick(2) ? 17 : vp_pick(3); std::string s; for (unsigned j = 0; j < len; j++) s.push_back((char)vp_nondet_u8()); v.push_back(s); bytes += 8 + len; }
+  BufferWriter w; WriteSizeCalculator calc;
+  w << v; calc << v;
+  vp_assert(w.buffer->size() == bytes && calc.writtenSize == bytes, "vector<string> bytes = count word + per string (size word + characters)");
+  BufferReader r(w.buffer);
+  std::vector<std::string> t;
+  t.push_back("stale");                         // the target's previous contents must not survive
+  r >> t;
+  vp_assert(t.size() == v.size(), "vector<string> length round-trips");
+  for (unsigned i = 0; i < k && i < t.size(); i++) vp_assert(t[i] == v[i], "every string round-trips (every byte value, also across the small-string boundary)");
+  vp_assert(r.end(), "consumed exactly");
+  vp_reach("roundtrip-string-end"); vp_reach("end");
+}
+#endif
